@@ -35,4 +35,32 @@ for root in ("/", "/srv/", "/srv/pub/"):
                         verdict(True, "the translated path climbs above the served directory", input=dict(root=root, path=cp), observed=got)
                 if not (got == "." or un.startswith("./")):
                     verdict(True, "the translated path is not relative to the served directory", input=dict(root=root, path=cp), observed=got)
+# the jail: with the jail set to one directory, opening a control directory succeeds only at or below it
+import itertools
+from breezy import errors
+from breezy.transport import get_transport
+from breezy.bzr.smart import request as R
+names = ["srv", "srv-private", "srv2", "sr", "srvx/deep", "other", "srv/sub", "srv/sub/deeper", "srv%2Fx", "srv/../srv-private", "srv/.."]
+for scheme_root in ("memory:///", "memory:///top/"):
+    jail = get_transport(scheme_root + "srv/")
+    R.jail_info.transports = [jail]
+    try:
+        for n in names:
+            tried += 1
+            try:
+                t = get_transport(scheme_root + n)
+            except Exception:  # noqa
+                continue
+            inside = (t.base == jail.base) or t.base.startswith(jail.base)
+            try:
+                R._pre_open_hook(t)
+                allowed = True
+            except Exception:  # noqa  (JailBreak, or the transport's own refusal)
+                allowed = False
+            if allowed and not inside:
+                verdict(True, "opening a control directory OUTSIDE the jail was allowed", input=dict(jail=jail.base, opened=t.base))
+            if inside and not allowed:
+                verdict(True, "opening a control directory inside the jail was refused", input=dict(jail=jail.base, opened=t.base))
+    finally:
+        R.jail_info.transports = None
 verdict(False, "no failing path among %d" % tried)
